@@ -89,8 +89,9 @@ def exact_peaks(ctx, rec, variant):
     shape = (rng.randint(5, 7), rng.randint(5, 7), rng.randint(3, 4))
     off = (rng.randint(1, shape[0] - 3), rng.randint(1, shape[1] - 3), rng.randint(0, shape[2] - 1))
     scores = np.zeros(shape)
-    # background below the threshold, plateau-free
-    scores += np.arange(scores.size).reshape(shape) * 1e-4
+    # background below the threshold, plateau-free; every third case uses the threshold 0 with a negative background
+    thr = 0.0 if variant % 3 == 0 else (1.0 if variant % 3 == 1 else -0.5)
+    scores += np.arange(scores.size).reshape(shape) * 1e-4 + (thr - 0.5)
     vox = [tuple(int(rec["pos"][i][k] + off[k]) for k in range(3)) for i in range(n)]
     for i, v in enumerate(vox):
         scores[v] = 5.0 - 0.25 * i
@@ -103,7 +104,7 @@ def exact_peaks(ctx, rec, variant):
     case = {"kind": "exact_peaks", "rec": rec, "variant": variant}
     sig = {"op": "scores_extract_particles", "layer": "L2"}
     out, err = core.call_guarded(tmana.scores_extract_particles, scores, amap, alist, 3, math.sqrt(rec["d2"]),
-                                 scores_threshold=1.0, angles_numbering=numbering)
+                                 scores_threshold=thr, angles_numbering=numbering)
     ctx.ran(case)
     if err is not None:
         ctx.fail("call_raises", err, case, sig)
@@ -201,7 +202,7 @@ def gen_peaks_case(rng, idx, smax):
     return {"kind": "peaks", "id": idx, "shape": shape, "seed": rng.randint(0, 10 ** 6),
             "numbering": rng.randint(0, 1), "order": rng.choice(["zxz", "zzx"]),
             "nsup": rng.choice([5, 40, 150, 400]), "k": rng.randint(1, 40), "blobs": rng.randint(0, 6),
-            "as_file": rng.random() < 0.5}
+            "as_file": rng.random() < 0.5, "thr_mode": rng.choice(["quantile", "quantile", "zero", "negative"])}
 
 
 def exec_peaks_case(ctx, case):
@@ -220,6 +221,11 @@ def exec_peaks_case(ctx, case):
         ctx.discard("score plateau among the supra-threshold voxels")
         return None
     threshold = float((flat[-nsup - 1] + flat[-nsup]) / 2)
+    if case.get("thr_mode", "quantile") != "quantile":
+        # shift the map so that the same voxels are selected by a threshold of exactly 0 (or a negative one)
+        target = 0.0 if case["thr_mode"] == "zero" else -0.25
+        scores = scores - threshold + target
+        threshold = target
     diameter = math.sqrt(case["k"] + 0.5)        # never the distance of two voxels (those are sqrt of integers)
     m = 23
     alist = np.round(np.column_stack([rs.uniform(-180, 180, m), rs.uniform(0, 180, m), rs.uniform(-180, 180, m)]), 3)
@@ -344,20 +350,20 @@ def run(ctx):
     recs = res.records
     ctx.extra["exact_cases_emitted"] = len(recs)
     keyed = sorted(recs, key=lambda r: core.stable_hash([ctx.seed, r]))
-    nclean = ctx.pick(1000, 25000)
+    nclean = ctx.pick(700, 8000)
     for i, rec in enumerate(keyed[:nclean]):
         exact_clean(ctx, rec, (ctx.seed * 13 + i) % 9973)
     single = [r for r in keyed if len(set(r["grp"])) == 1]
-    npk = ctx.pick(300, 6000)
+    npk = ctx.pick(300, 2500)
     for i, rec in enumerate(single[:npk]):
         exact_peaks(ctx, rec, (ctx.seed * 17 + i) % 9973)
     ctx.exhaustive["L2_exact"] = nclean >= len(keyed) and npk >= len(single)
     ctx.extra["exact_replayed"] = min(nclean, len(keyed)) + min(npk, len(single))
     # L3
     nmax = ctx.pick(120, 400)
-    cases = [gen_clean_case(ctx.rng, i + 1, nmax) for i in range(ctx.pick(250, 4000))]
+    cases = [gen_clean_case(ctx.rng, i + 1, nmax) for i in range(ctx.pick(250, 1500))]
     for a in range(0, len(cases), 1000):
         run_l3(ctx, cases[a:a + 1000])
-    pcases = [gen_peaks_case(ctx.rng, i + 1, ctx.pick(16, 40)) for i in range(ctx.pick(60, 700))]
+    pcases = [gen_peaks_case(ctx.rng, i + 1, ctx.pick(16, 40)) for i in range(ctx.pick(60, 300))]
     for a in range(0, len(pcases), 200):
         run_l3(ctx, pcases[a:a + 200])
